@@ -3,4 +3,5 @@ let table = [
   ("share", Model.entry_share);
   ("tbls", Model.entry_tbls);
   ("framing", Model.entry_framing);
+  ("queryloop", Model.entry_queryloop);
 ]
